@@ -16,9 +16,9 @@ import KmipModel.Model.CliConn
 namespace Kmip.CliDrain
 open Kmip.CliLts Kmip.CliConn
 
-def allRP : List RP := [.r0, .r1, .r2c, .r2s, .rtA1, .rtA2, .rtB, .rtC, .rEnd]
-def allWP : List WP := [.wc, .ws, .w1c, .w1s, .w2cr, .w2cf, .w2sr, .w2sf, .wtA1, .wtA2, .wtB, .wtC, .wEnd]
-def allCP : List CP := [.c0, .ctA, .ctB, .ctC]
+def allRP : List RP := [.r0, .r1, .r2c, .r2s, .rtA1, .rtA2, .rtB, .rEnd]
+def allWP : List WP := [.wc, .ws, .w1c, .w1s, .w2cr, .w2cf, .w2sr, .w2sf, .wtA1, .wtA2, .wtB, .wEnd]
+def allCP : List CP := [.c0, .ctA, .ctB]
 def bools : List Bool := [false, true]
 
 /-- a let-go connection: closed, caller idle; `cp ≠ c0`: a `Close()` is inside its terminate. -/
@@ -35,7 +35,7 @@ def starts : List St :=
 def proj (s : St) : St :=
   mk (rRecol s.rp) (wRecol s.wp) (if s.cause = 0 then 0 else if s.cause = 1 then 1 else 2)
     s.txNil s.txClosed s.netClosed
-    (if s.cref ∧ (s.cp = .ctA ∨ s.cp = .ctB ∨ s.cp = .ctC) then s.cp else .c0)
+    (if s.cref ∧ (s.cp = .ctA ∨ s.cp = .ctB) then s.cp else .c0)
 
 def stepSome (p : Params) (s : St) : List St :=
   stepR p s ++ stepW p s ++ stepC p s
@@ -45,8 +45,8 @@ def stepSome (p : Params) (s : St) : List St :=
         [{ s with wp := .wc }, { s with wp := .w2sr }, { s with wp := .w2sf }] else [])
 
 def step (p : Params) : Option St → List (Option St)
-  | none => (starts.filter handoffOk).map some
-  | some s => (stepSome p s).map some
+  | none => (starts.filter handoffOk).map fun t => some (norm p t)
+  | some s => (stepSome p s).map fun t => some (norm p t)
 
 def sys (p : Params) : Sys (Option St) := { init := none, step := step p }
 
@@ -67,6 +67,17 @@ def code : Option St → Nat
 
 def decode (n : Nat) : Option St := if n = 0 then none else some (CliConn.decode (n - 1))
 
-def codec : Codec (Option St) := { code := code, decode := decode }
+def wf : Option St → Bool
+  | none => true
+  | some s => CliConn.wf s
+
+theorem roundtrip : ∀ s : Option St, wf s = true → decode (code s) = s
+  | none, _ => rfl
+  | some s, h => by
+    have : CliConn.code s + 1 ≠ 0 := by omega
+    simp only [code, decode, this, if_false, Nat.add_sub_cancel]
+    exact congrArg some (CliConn.roundtrip s h)
+
+def codec : Codec (Option St) := { code := code, decode := decode, wf := wf, roundtrip := roundtrip }
 
 end Kmip.CliDrain
